@@ -61,8 +61,8 @@ def allocating(prog, o, f, c):
     return t is not None and t.key in may_alloc(prog)
 
 
-def r_prealloc(prog, R):
-    r = R.rule("R-C14-PREALLOC", "growth routines allocate everything before they mutate; failure exits restore the size", floor=5, analysis="A-DOM ordering + A-VS")
+def r_prealloc(prog, R, rid="R-C14-PREALLOC"):
+    r = R.rule(rid, "growth routines allocate everything before they mutate; failure exits restore the size", floor=5, analysis="A-DOM ordering + A-VS")
     o = ownrules.get_own(prog)
     specs = [
         ("ares_htable_expand",
